@@ -686,9 +686,11 @@ pub enum Obs {
     Harness(String),
 }
 
-fn hang_limit() -> Duration {
-    let s = std::env::var("SIM_C11_TIMEOUT_S").ok().and_then(|v| v.parse().ok()).unwrap_or(30);
-    Duration::from_secs(s)
+fn hang_limit(scn: &Scn) -> Duration {
+    let s: u64 = std::env::var("SIM_C11_TIMEOUT_S").ok().and_then(|v| v.parse().ok()).unwrap_or(30);
+    // millions of malformed units take the pinned decoder tens of seconds (super-linear, allowed)
+    let k = if scn.shape.starts_with("bytes:") && scn.depth > 2_000_000 { 10 } else { 1 };
+    Duration::from_secs(s * k)
 }
 
 pub fn observe(s: &Scn) -> Obs {
@@ -714,7 +716,7 @@ pub fn observe(s: &Scn) -> Obs {
         match ch.try_wait() {
             Ok(Some(st)) => break st,
             Ok(None) => {
-                if t0.elapsed() > hang_limit() {
+                if t0.elapsed() > hang_limit(s) {
                     let _ = ch.kill();
                     let _ = ch.wait();
                     return Obs::Hang;
@@ -1120,6 +1122,13 @@ pub fn decoder_grid(cfg: &Config) -> (i32, J) {
                 if thorough {
                     ns.push(1_000_000);
                     ns.push(1000);
+                }
+                if thorough && stack.is_empty() {
+                    // past 2^21 and 2^22 malformed or expanding units (the pinned decoder needs
+                    // seconds for these: its work grows faster than the input, which C18 does
+                    // not forbid)
+                    ns.push((1 << 21) + 3);
+                    ns.push((1 << 22) + 3);
                 }
                 for n in ns {
                     scns.push(Scn { shape: format!("bytes:{p}"), depth: n, api: format!("{trap}{stack}") });
